@@ -15,7 +15,8 @@ pub fn run(ctx: &Ctx) -> Outcome {
     // the tier's configurations plus the default cipher of the crate (BeltBlock), which is in every binary
     let mut all: Vec<&Cfg> = cfgs.clone();
     for c in &ctx.reg.cfgs {
-        if c.name == "BeltBlock" && !all.iter().any(|x| x.name == c.name) {
+        // ... and the very wide backends (parallel width >= 256, set 'w')
+        if (c.name == "BeltBlock" || c.sets.contains('w')) && !all.iter().any(|x| x.name == c.name) {
             all.push(c);
         }
     }
@@ -35,7 +36,9 @@ pub fn run(ctx: &Ctx) -> Outcome {
             let c = rf::Ciph::new(cfg, key);
             // IVs chosen so that s_0 = E(IV) sits on either side of the 2^128 wrap
             let mut ivs: Vec<(String, Vec<u8>)> = vec![("pattern".into(), pattern(seed, 0x1717, 16)), ("zero".into(), vec![0; 16])];
-            for j in 0..=w as u128 {
+            // (very wide backends: the wrap distances that matter relative to one group, not all of 0..=2W+2)
+            let js: Vec<u128> = if par > 16 { vec![0, 1, 2, par as u128 - 1, par as u128, par as u128 + 1, 2 * par as u128 + 1] } else { (0..=w as u128).collect() };
+            for j in js {
                 ivs.push((format!("E(IV)=2^128-1-{j}"), c.d(&(u128::MAX - j).to_le_bytes())));
                 ivs.push((format!("E(IV)={j}"), c.d(&j.to_le_bytes())));
             }
@@ -52,7 +55,7 @@ pub fn run(ctx: &Ctx) -> Outcome {
                                 if off > 0 {
                                     ensure!(s.seek(SeekTy::U64, off as u128) == Some(Ok(())), "seek_refused/belt", "{}: seek to {} refused", d.ty, off);
                                 }
-                                let mut out = if k == Kind::InPlace { data[..len].to_vec() } else { dirty(len) };
+                                let mut out = if k.in_place() { data[..len].to_vec() } else { dirty(len) };
                                 ensure!(s.apply(k, &data[..len], &mut out).is_ok(), "request_refused/belt", "{}: {} bytes at offset {} refused", d.ty, len, off);
                                 let log = toy::log_take();
                                 ensure!(out == want, "keystream_wrong/belt", "{} {} offset {} length {} ({}): {} want {} (first diff at byte {:?})", d.ty, ivn, off, len, k.s(), short(&out), short(&want), first_diff(&out, &want));
